@@ -287,8 +287,8 @@ Qed.
 Lemma setup_var_upper n m : upper_str n = upper_str m -> setup_var n = setup_var m.
 Proof. unfold setup_var. now intros ->. Qed.
 
-Lemma replay_records jf sf w e top plist force rd ls out w' cfg interp ptop topv absent fuel st0 :
-  expand_gen jf sf w e top plist force rd ls = Ok out ->
+Lemma replay_records jf sf cf w e top plist force rd ls out w' cfg interp ptop topv absent fuel st0 :
+  expand_gen jf sf cf w e top plist force rd ls = Ok out ->
   c_max_depth cfg = None ->
   find_pv w' top topv = Some ptop ->
   p_actions ptop = exact_actions interp (exact_view out) ++ map absent_action absent ->
@@ -312,7 +312,7 @@ Lemma replay_records jf sf w e top plist force rd ls out w' cfg interp ptop topv
 Proof.
   intros E Hmd Ft Ha Hi Hd St Hs ND Fr0 Fr Hf.
   destruct fuel as [|[|f]]; try lia.
-  pose proof (exact_view_pins jf sf w e top plist force rd ls out E) as PV. fold (exact_view out) in PV.
+  pose proof (exact_view_pins jf sf cf w e top plist force rd ls out E) as PV. fold (exact_view out) in PV.
   pose proof (replay w' cfg Hmd f interp (exact_view out) absent top topv ptop st0) as RP.
   rewrite PV in RP. destruct (RP Hi Ft Ha Hd St Hs ND Fr0 Fr) as [st' [R V']]. clear RP.
   inversion ND as [|? ? Nt NDl]; subst.
@@ -329,8 +329,8 @@ Proof.
     + intros x I Ex. apply (Np x I). now apply setup_var_inj.
 Qed.
 
-Lemma reproduces jf sf w e top force rd ls out w' cfg interp ptop topv absent fuel st0 :
-  expand_gen jf sf w e top [] force rd ls = Ok out ->
+Lemma reproduces jf sf cf w e top force rd ls out w' cfg interp ptop topv absent fuel st0 :
+  expand_gen jf sf cf w e top [] force rd ls = Ok out ->
   (forall n v, recorded e n v -> upper_str n <> upper_str top ->
      exists x, In x (pins_of out) /\ upper_str (pin_name x) = upper_str n /\ snd (fst x) = v) ->
   c_max_depth cfg = None ->
@@ -354,7 +354,7 @@ Lemma reproduces jf sf w e top force rd ls out w' cfg interp ptop topv absent fu
                    alookup (setup_var m) (s_env st') = Some (setup_string cfg n v)).
 Proof.
   intros E Cov Hmd Ft Ha Hi Hd St Hs ND Fr Hf.
-  destruct (replay_records jf sf w e top [] force rd ls out w' cfg interp ptop topv absent fuel st0
+  destruct (replay_records jf sf cf w e top [] force rd ls out w' cfg interp ptop topv absent fuel st0
               E Hmd Ft Ha Hi Hd St Hs ND (Fr top) (fun x _ => Fr (pin_name x)) Hf) as [st' [R [Rt [Rp Ro]]]].
   exists st'. split; [exact R|]. split; [exact Rt|]. split.
   - intros n v Rn Nn. destruct (Cov n v Rn Nn) as [[[xn xv] xo] [Ix [Ux Vx]]]. simpl in Ux, Vx. subst xv.
@@ -418,10 +418,10 @@ Proof.
 Qed.
 
 (* no pin for a product that has no SETUP_ variable *)
-Lemma pins_need_a_record jf sf w e top plist force rd ls out o n v :
-  expand_gen jf sf w e top plist force rd ls = Ok out -> In (OPin o n v) out ->
+Lemma pins_need_a_record jf sf cf w e top plist force rd ls out o n v :
+  expand_gen jf sf cf w e top plist force rd ls = Ok out -> In (OPin o n v) out ->
   alookup (setup_var n) e = None -> alookup n plist = Some v.
 Proof.
-  intros E I N. destruct (pins_sound jf sf w e top plist force rd ls out o n v E I) as [R|P]; [|exact P].
+  intros E I N. destruct (pins_sound jf sf cf w e top plist force rd ls out o n v E I) as [R|P]; [|exact P].
   unfold recorded, setup_version in R. rewrite N in R. discriminate R.
 Qed.
